@@ -110,7 +110,17 @@ class Matcher:
     def test(self, op, av, pos):
         if pos >= self.n:
             return False
-        cond = atom_cond(op, av, self.chars[pos], self.flags)
+        c = self.chars[pos]
+        if not isinstance(c, int):
+            dom = self.it.domain_ids.get(c.get_id())
+            if dom is not None:
+                # finite registered domain: decide the class test by evaluation when it is uniform over the domain
+                res = [bool(atom_cond(op, av, d, self.flags)) for d in dom]
+                if all(res):
+                    return True
+                if not any(res):
+                    return False
+        cond = atom_cond(op, av, c, self.flags)
         if isinstance(cond, bool):
             return cond
         return self.it.branch(cond)
@@ -255,6 +265,7 @@ class AMatch(Abstract):
 
 
 def _chars(it, s):
+    s = it.force(s)
     if isinstance(s, str):
         s = SStr.lit(s)
     if isinstance(s, SVal):
